@@ -370,8 +370,11 @@ def gen_workload(tape):
     for _ in range(nops):
         op = tape.pick(["save", "populate", "restart_clean", "restart_crash",
                         "load", "find", "corrupt", "save", "populate_some",
-                        "corrupt", "set_coverage", "remove_file", "corrupt"], "op")
+                        "corrupt", "set_coverage", "remove_file", "corrupt",
+                        "populate_fault"], "op")
         o = {"op": op}
+        if op in ("corrupt", "save"):
+            o["same_tick"] = tape.flag("same_tick", 1, 2)
         if op == "corrupt":
             o["how"] = tape.pick(["truncate", "wrong_type", "missing_key",
                                   "bad_time", "non_utf8", "empty", "missing_file",
@@ -381,6 +384,10 @@ def gen_workload(tape):
             o["which"] = [i for i in range(n) if tape.flag("some", 1, 2)]
         elif op == "remove_file" and n:
             o["which"] = tape.choice(n, "rm")
+        elif op == "populate_fault" and n:
+            # the handler fails once (EIO) while the information of this file
+            # is retrieved; the caller repeats the search
+            o["which"] = tape.choice(n, "pf")
         elif op == "set_coverage":
             o["tcov"] = tape.choice(3, "tcov")
         ops.append(o)
@@ -427,6 +434,10 @@ def _file_path(w, root, f):
 def handler_info(file_info):
     """info callable of the harness handler (kind == 'handler')."""
     tab = _T["table"]
+    if _T.get("info_fault") == os.path.basename(file_info.path):
+        _T["info_fault"] = None              # transient: fails once
+        _T["info_fault_fired"] = True
+        raise OSError(5, "injected EIO in handler.get_info")
     row = tab[os.path.basename(file_info.path)]
     return _T["FileInfo"](file_info.path, [row[0], row[1]],
                           json.loads(json.dumps(row[2])))
@@ -457,6 +468,7 @@ class Exec:
         self.branch_samples = []
         self.blog = []
         self.sweeps = 0
+        self.tick = 0
         self.tcov_now = None
         self.cov_dirty = False        # cache file written under another time_coverage
         self.atexit_save = False
@@ -488,6 +500,7 @@ class Exec:
                     datetime.fromisoformat(f["t0"]), datetime.fromisoformat(f["t1"]),
                     ATTRS[f["attr"]])
         _T["table"] = table
+        _T["info_fault"] = None
 
     def new_fileset(self, with_cache=True):
         w = self.w
@@ -752,6 +765,31 @@ class Exec:
         fs = self.fs
         if kind == "populate":
             list(fs.find(no_files_error=False))
+        elif kind == "populate_fault":
+            if self.w["kind"] == "handler" and self.w["files"] and "which" in o:
+                p = _file_path(self.w, self.root, self.w["files"][o["which"]])
+                _T["info_fault"] = os.path.basename(p)
+                _T["info_fault_fired"] = False
+                try:
+                    list(fs.find(no_files_error=False))
+                except OSError:
+                    pass                      # allowed: the search may fail
+                except Exception as e:  # noqa
+                    self.V.append(_viol("C15/find-exception",
+                                        f"{type(e).__name__}: {e}"[:300]))
+                _T["info_fault"] = None
+                if _T.get("info_fault_fired"):
+                    self.faults["handler_error_in_get_info"] = \
+                        self.faults.get("handler_error_in_get_info", 0) + 1
+                    self.probe("search_repeated_after_handler_error")
+                    self.nontrivial = True
+            # the repetition has to succeed and to agree with an uncached fileset
+            try:
+                list(fs.find(no_files_error=False))
+            except Exception as e:  # noqa
+                self.V.append(_viol("C15/find-exception",
+                                    f"repeated search: {type(e).__name__}: {e}"[:300]))
+            self.compare_find()
         elif kind == "populate_some":
             for i in o["which"]:
                 p = _file_path(self.w, self.root, self.w["files"][i])
@@ -759,8 +797,10 @@ class Exec:
                     fs.get_info(p)
         elif kind == "save":
             self.save()
+            self.stamp(o)
         elif kind == "restart_clean":
             self.save(via_atexit=True)
+            self.stamp()
             self.atexit.handlers = []
             self.fs = self._construct()
         elif kind == "restart_crash":
@@ -814,7 +854,33 @@ class Exec:
                 "C15/find-differs-with-cache",
                 f"with cache {a[:3]}... without {b[:3]}..."))
 
+    # The modification time of the cache file is a clock reading: the harness
+    # owns it.  After every change of the file (save, external corruption) the
+    # stamp is set to the simulated coarse file-system clock, which advances
+    # only when the operation says so - two versions written within one tick
+    # carry the same mtime, as on a file system with coarse timestamps or
+    # after a copy that preserves times.
+    MTIME0 = 1_500_000_000
+
+    def stamp(self, o=None):
+        if o is None or not o.get("same_tick"):
+            self.tick += 1
+        else:
+            self.probe("rewritten_within_one_mtime_tick")
+        self._pin_mtime()
+
+    def _pin_mtime(self):
+        if os.path.isfile(self.cache):
+            try:
+                os.utime(self.cache, (self.MTIME0 + self.tick, self.MTIME0 + self.tick))
+            except OSError:
+                pass
+
     def corrupt(self, o):
+        self._corrupt(o)
+        self.stamp(o)
+
+    def _corrupt(self, o):
         how, arg = o["how"], o["arg"]
         path = self.cache
         if os.path.isdir(path):
@@ -852,6 +918,7 @@ class Exec:
             for cut in range(0, len(data), stride):
                 with open(path, "wb") as f:
                     f.write(data[:cut])
+                self._pin_mtime()             # all cuts within one tick
                 self.last_corruption = "truncated"
                 self.atexit = _Atexit()
                 with patched((_T["fsmod"], "atexit", self.atexit)):
